@@ -1,4 +1,7 @@
 import MLPE.Proofs.EngTasks
+import MLPE.PlainSpec
+import MLPE.Proofs.EngC04
+import MLPE.Proofs.Retry
 
 /-!
 # Plain pipelines: the invariant behind C01 / C02 / C03 / C05 / C06
@@ -12,6 +15,7 @@ The invariant `PInv` describes every reachable state of such a program while the
 -/
 namespace MLPE.Eng
 open MLPE
+variable {val : Node → Option Val}
 
 /-- hypotheses of the plain fragment; `d` is the main reduced DAG -/
 structure PlainP (P : Program) (d : DagRef) : Prop where
@@ -46,6 +50,8 @@ structure Quiet (s : St) : Prop where
   opened  : ∀ n, s.opened n = false
   sw      : ∀ n, s.sw n = none
   addl    : ∀ n, s.additional n = none
+  hides   : ∀ n, s.hideCount n = 0
+  pend    : s.outcome = none
 
 /-- readiness in a plain DAG: every predecessor has a stored result -/
 def readyP (P : Program) (s : St) (n : Node) : Bool := (P.g.preds n).all fun p => (s.res p).isSome
@@ -66,34 +72,58 @@ theorem ready_plain {P : Program} {d : DagRef} (hp : PlainP P d) {s : St} (hq : 
   | none => simp
   | some v => simp [hres p v hr]
 
+/-! ### the dataflow reading of a plain pipeline (the specification the values are compared with) -/
+
+/-- `val` solves the dataflow equations of the pipeline: a node has a value iff all its sources have one and the
+retry / default policy applied to its body on those values yields one -/
+structure Solution (P : Program) (d : DagRef) (val : Node → Option Val) : Prop where
+  eq : ∀ n ∈ d.nodes, val n =
+    if (P.g.preds n).all (fun p => (val p).isSome) then valueOf P n (kwFrom P val n) else none
+
+/-- node `n` fails with `e`: all its sources have values and the policy ends with the failure `e` -/
+def NodeFails (P : Program) (val : Node → Option Val) (n : Node) (e : Exc) : Prop :=
+  (P.g.preds n).all (fun p => (val p).isSome) = true ∧ finalOf P n (kwFrom P val n) = some (.failed e)
+
+/-- attempt `k` of the (only) invocation of node `n` is the next one / is in progress -/
+structure Att (P : Program) (val : Node → Option Val) (n : Node) (k : Nat) (kw : Kwargs) (inv : Nat) : Prop where
+  kw_eq : kw = kwFrom P val n
+  preds : (P.g.preds n).all (fun p => (val p).isSome) = true
+  inv0  : inv = 0
+  kpos  : 1 ≤ k
+  kle   : k ≤ (P.cfg n).attemptsEff
+  pre   : ∀ j, 1 ≤ j → j < k → Retry.decide (P.cfg n) j (P.body n kw 0 j) = .retry
+
+/-- value tracking is conditional on `val` being a solution (so that the liveness theorems need none) -/
+def Track (P : Program) (d : DagRef) (val : Node → Option Val) (X : Prop) : Prop := Solution P d val → X
+
 /-! ### per-task predicates -/
 
 /-- a node task of node `n`, before the caller has left -/
-inductive NodeTaskOK (P : Program) (d : DagRef) (s : St) (n : Node) : Task → Prop
+inductive NodeTaskOK (P : Program) (d : DagRef) (val : Node → Option Val) (s : St) (n : Node) : Task → Prop
   | fresh :
-      s.proc n = false → s.res n = none →
-      NodeTaskOK P d s n { frames := [.node d n false .start], st := .runnable .go, name := .node n }
+      s.proc n = false → s.res n = none → (∀ p ∈ P.g.preds n, (s.res p).isSome = true) →
+      NodeTaskOK P d val s n { frames := [.node d n false .start], st := .runnable .go, name := .node n }
   | inBody (k : Nat) (kw : Kwargs) (inv : Nat) :
-      s.proc n = true → s.res n = none →
-      NodeTaskOK P d s n { frames := [.node d n false (.body k kw inv)],
-                           st := .blocked (.gate n inv k (P.body n kw inv k)), name := .node n }
+      s.proc n = true → s.res n = none → Track P d val (Att P val n k kw inv) →
+      NodeTaskOK P d val s n { frames := [.node d n false (.body k kw inv)],
+                               st := .blocked (.gate n inv k (P.body n kw inv k)), name := .node n }
   | bodyDone (k : Nat) (kw : Kwargs) (inv : Nat) :
-      s.proc n = true → s.res n = none →
-      NodeTaskOK P d s n { frames := [.node d n false (.body k kw inv)],
-                           st := .runnable (.body (P.body n kw inv k)), name := .node n }
+      s.proc n = true → s.res n = none → Track P d val (Att P val n k kw inv) →
+      NodeTaskOK P d val s n { frames := [.node d n false (.body k kw inv)],
+                               st := .runnable (.body (P.body n kw inv k)), name := .node n }
   | sleeping (k : Nat) (kw : Kwargs) (inv : Nat) (dl : Nat) :
-      s.proc n = true → s.res n = none →
-      NodeTaskOK P d s n { frames := [.node d n false (.sleep k kw inv)],
-                           st := .blocked (.sleep n inv k dl), name := .node n }
+      s.proc n = true → s.res n = none → Track P d val (Att P val n (k + 1) kw inv) →
+      NodeTaskOK P d val s n { frames := [.node d n false (.sleep k kw inv)],
+                               st := .blocked (.sleep n inv k dl), name := .node n }
   | slept (k : Nat) (kw : Kwargs) (inv : Nat) :
-      s.proc n = true → s.res n = none →
-      NodeTaskOK P d s n { frames := [.node d n false (.sleep k kw inv)], st := .runnable .go, name := .node n }
+      s.proc n = true → s.res n = none → Track P d val (Att P val n (k + 1) kw inv) →
+      NodeTaskOK P d val s n { frames := [.node d n false (.sleep k kw inv)], st := .runnable .go, name := .node n }
   | doneOk :
-      s.proc n = true → (s.res n).isSome = true →
-      NodeTaskOK P d s n { frames := [], st := .done .ok, name := .node n }
+      s.proc n = true → (s.res n).isSome = true → Track P d val (val n = s.res n) →
+      NodeTaskOK P d val s n { frames := [], st := .done .ok, name := .node n }
   | doneExc (e : Exc) :
-      s.proc n = true → s.res n = none →
-      NodeTaskOK P d s n { frames := [], st := .done (.exc e), name := .node n }
+      s.proc n = true → s.res n = none → Track P d val (NodeFails P val n e) →
+      NodeTaskOK P d val s n { frames := [], st := .done (.exc e), name := .node n }
 
 /-- the main `_run_dag` task (task 1); `launched` are the nodes it has created tasks for, in order -/
 inductive MainOK (P : Program) (d : DagRef) (s : St) (launched : List Node) : Task → Prop
@@ -153,14 +183,14 @@ inductive CallerOK (P : Program) (s : St) : Task → Prop
       CallerOK P s { frames := [.mgrWait], st := .runnable .go, mustCancel := mc, name := .caller }
 
 /-- **the invariant of plain runs** (while `outcome = none`) -/
-structure PInv (P : Program) (d : DagRef) (s : St) : Prop where
+structure PInv (P : Program) (d : DagRef) (val : Node → Option Val) (s : St) : Prop where
   quiet    : Quiet s
   noRecRes : ∀ p v, s.res p = some v → v.isRecur = false ∧ v.isExc = false
   caller   : ∃ tk, s.tasks[0]? = some tk ∧ CallerOK P s tk
   rest     : (s.tasks.length = 1 ∧ ∀ n, s.proc n = false ∧ s.res n = none) ∨
              ∃ launched : List Node, s.tasks.length = 2 + launched.length ∧
                (∃ tk, s.tasks[1]? = some tk ∧ MainOK P d s launched tk) ∧
-               (∀ i (h : i < launched.length), ∃ tk, s.tasks[2 + i]? = some tk ∧ NodeTaskOK P d s launched[i] tk) ∧
+               (∀ i (h : i < launched.length), ∃ tk, s.tasks[2 + i]? = some tk ∧ NodeTaskOK P d val s launched[i] tk) ∧
                (∀ n, n ∉ launched → s.proc n = false ∧ s.res n = none)
 
 
@@ -227,7 +257,7 @@ theorem mem_taskErrors {s : St} (i : Nat) (tk : Task) (e : Exc) (hi : s.tasks[i]
 /-- a launched node without a result has a task that can still move, or waits for something external, or has
 failed — the last is impossible while the caller waits un-notified -/
 theorem launched_no_result_contra {P : Program} {d : DagRef} {s : St} {n : Node} {tk : Task} {i : Nat}
-    (hi : s.tasks[i]? = some tk) (hok : NodeTaskOK P d s n tk) (hres : s.res n = none)
+    (hi : s.tasks[i]? = some tk) (hok : NodeTaskOK P d val s n tk) (hres : s.res n = none)
     (hrun : s.tasks.any isRunnable = false) (hext : hasExternal s = false) (herr : NoErr s) : False := by
   have h1 := not_any_runnable hrun i tk hi
   have h2 := no_external hext i tk hi
@@ -242,7 +272,7 @@ theorem launched_no_result_contra {P : Program} {d : DagRef} {s : St} {n : Node}
 
 /-- **C02 (plain), no stuck state**: in every state satisfying the invariant in which the run is still pending,
 some task can run or something external (a node body, a timer) is outstanding -/
-theorem pinv_not_stuck {P : Program} {d : DagRef} (hp : PlainP P d) {s : St} (h : PInv P d s)
+theorem pinv_not_stuck {P : Program} {d : DagRef} (hp : PlainP P d) {s : St} (h : PInv P d val s)
     (hout : s.outcome = none) : stuck s = false := by
   unfold stuck
   simp only [hout, Option.isNone_none, Bool.true_and]
@@ -289,6 +319,7 @@ end MLPE.Eng
 
 namespace MLPE.Eng
 open MLPE
+variable {val : Node → Option Val}
 
 /-! ### what a batch of notifications does to the task list -/
 
@@ -397,6 +428,25 @@ theorem tasks_nodeFinally (P : Program) (s : St) (d : DagRef) (n : Node) :
     simp [*]
 
 /-- apart from the task list, the `finally` only sets the node's event -/
+theorem nodeFinally_hideCount (P : Program) (s : St) (d : DagRef) (n : Node) (u : Bool) :
+    (nodeFinally P s d n u).hideCount = s.hideCount ∧ (nodeFinally P s d n u).invCount = s.invCount := by
+  have hna : ∀ (ks : List Key) (s : St), (notifyAll s ks).hideCount = s.hideCount ∧ (notifyAll s ks).invCount = s.invCount := by
+    intro ks
+    induction ks with
+    | nil => intro s; exact ⟨rfl, rfl⟩
+    | cons k ks ih => intro s; simp only [notifyAll, List.foldl_cons]; exact ih (notify s k)
+  unfold nodeFinally
+  simp only []
+  split
+  · exact ⟨rfl, rfl⟩
+  · split
+    · have := hna ((P.g.desc1 n).map Key.node) (setEvent s n)
+      simp only [notify]
+      exact this
+    · have := hna ((P.g.desc1 n).map Key.node) (setEvent s n)
+      simp only [notify]
+      exact this
+
 theorem nodeFinally_fields (P : Program) (s : St) (d : DagRef) (n : Node) (u : Bool) :
     (nodeFinally P s d n u).res = s.res ∧ (nodeFinally P s d n u).resHid = s.resHid ∧
     (nodeFinally P s d n u).proc = s.proc ∧ (nodeFinally P s d n u).procHid = s.procHid ∧
@@ -429,25 +479,32 @@ end MLPE.Eng
 
 namespace MLPE.Eng
 open MLPE
+variable {val : Node → Option Val}
 
 /-! ### stability of the per-task predicates -/
 
 /-- node tasks never wait on a condition or an event: notifications do not touch them -/
 theorem NodeTaskOK.wake_id {P : Program} {d : DagRef} {s : St} {n : Node} {tk : Task}
-    (h : NodeTaskOK P d s n tk) (ks : List Key) (evs : List Node) : wakeSet ks evs tk = tk := by
+    (h : NodeTaskOK P d val s n tk) (ks : List Key) (evs : List Node) : wakeSet ks evs tk = tk := by
   cases h <;> rfl
 
 /-- a node task's predicate only looks at its own node's processed flag and result -/
 theorem NodeTaskOK.frame {P : Program} {d : DagRef} {s s' : St} {n : Node} {tk : Task}
-    (h : NodeTaskOK P d s n tk) (hp : s'.proc n = s.proc n) (hr : s'.res n = s.res n) : NodeTaskOK P d s' n tk := by
+    (h : NodeTaskOK P d val s n tk) (hp : s'.proc n = s.proc n) (hr : s'.res n = s.res n)
+    (hm : ∀ p, (s.res p).isSome = true → (s'.res p).isSome = true) : NodeTaskOK P d val s' n tk := by
   cases h with
-  | fresh h1 h2 => exact .fresh (by rw [hp, h1]) (by rw [hr, h2])
-  | inBody k kw inv h1 h2 => exact .inBody k kw inv (by rw [hp, h1]) (by rw [hr, h2])
-  | bodyDone k kw inv h1 h2 => exact .bodyDone k kw inv (by rw [hp, h1]) (by rw [hr, h2])
-  | sleeping k kw inv dl h1 h2 => exact .sleeping k kw inv dl (by rw [hp, h1]) (by rw [hr, h2])
-  | slept k kw inv h1 h2 => exact .slept k kw inv (by rw [hp, h1]) (by rw [hr, h2])
-  | doneOk h0 h1 => exact .doneOk (by rw [hp, h0]) (by rw [hr, h1])
-  | doneExc e h0 h1 => exact .doneExc e (by rw [hp, h0]) (by rw [hr, h1])
+  | fresh h1 h2 h3 => exact .fresh (by rw [hp, h1]) (by rw [hr, h2]) (fun p hpp => hm p (h3 p hpp))
+  | inBody k kw inv h1 h2 h3 => exact .inBody k kw inv (by rw [hp, h1]) (by rw [hr, h2]) h3
+  | bodyDone k kw inv h1 h2 h3 => exact .bodyDone k kw inv (by rw [hp, h1]) (by rw [hr, h2]) h3
+  | sleeping k kw inv dl h1 h2 h3 => exact .sleeping k kw inv dl (by rw [hp, h1]) (by rw [hr, h2]) h3
+  | slept k kw inv h1 h2 h3 => exact .slept k kw inv (by rw [hp, h1]) (by rw [hr, h2]) h3
+  | doneOk h0 h1 h3 => exact .doneOk (by rw [hp, h0]) (by rw [hr, h1]) (by rw [hr]; exact h3)
+  | doneExc e h0 h1 h3 => exact .doneExc e (by rw [hp, h0]) (by rw [hr, h1]) h3
+
+/-- the same when the results do not change at all -/
+theorem NodeTaskOK.frame' {P : Program} {d : DagRef} {s s' : St} {n : Node} {tk : Task}
+    (h : NodeTaskOK P d val s n tk) (hp : s'.proc n = s.proc n) (hr : s'.res = s.res) : NodeTaskOK P d val s' n tk :=
+  h.frame hp (by rw [hr]) (fun p hpp => by rw [hr]; exact hpp)
 
 /-- waking the main task keeps its predicate (a blocked launcher becomes a running one) -/
 theorem MainOK.wake {P : Program} {d : DagRef} {s : St} {L : List Node} {tk : Task}
@@ -501,6 +558,7 @@ end MLPE.Eng
 
 namespace MLPE.Eng
 open MLPE
+variable {val : Node → Option Val}
 
 theorem MainOK.nodup {P : Program} {d : DagRef} {s : St} {L : List Node} {tk : Task} (h : MainOK P d s L tk) :
     L.Nodup := by
@@ -511,6 +569,49 @@ theorem MainOK.nodup {P : Program} {d : DagRef} {s : St} {L : List Node} {tk : T
   | waitingDest h1 => exact h1.nodup
   | waitDest h1 _ => exact h1.nodup
   | done h1 _ => exact h1.nodup
+
+theorem MainOK.mem_nodes {P : Program} {d : DagRef} {s : St} {L : List Node} {tk : Task} (h : MainOK P d s L tk)
+    {n : Node} (hn : n ∈ L) : n ∈ d.nodes := by
+  cases h with
+  | init h1 _ => subst h1; simp at hn
+  | launching rest h1 => exact (h1.same n).mp (List.mem_append_left _ hn)
+  | waitNode m rest h1 _ => exact (h1.same n).mp (List.mem_append_left _ hn)
+  | waitingDest h1 => exact (h1.same n).mp hn
+  | waitDest h1 _ => exact (h1.same n).mp hn
+  | done h1 _ => exact (h1.same n).mp hn
+
+/-- the attempt in progress ends the policy with `f`: that is the policy's result on the declared arguments -/
+theorem Att.final {P : Program} {n k inv : Nat} {kw : Kwargs} (a : Att P val n k kw inv) (f : Retry.Final)
+    (hd : Retry.decide (P.cfg n) k (P.body n kw inv k) = .done f) : finalOf P n (kwFrom P val n) = some f := by
+  obtain ⟨hkw, _, hinv, h1, h2, hpre⟩ := a
+  subst hinv
+  rw [← hkw]
+  unfold finalOf Retry.run
+  have hk : 1 + (k - 1) = k := by omega
+  have := Retry.loop_spec (P.cfg n) (fun j => P.body n kw 0 j) f (k - 1) 1 ((P.cfg n).attemptsEff - k)
+    (fun j hj1 hj2 => hpre j hj1 (by omega)) (by rw [hk]; exact hd)
+  have he : k - 1 + 1 + ((P.cfg n).attemptsEff - k) = (P.cfg n).attemptsEff := by omega
+  rw [he] at this
+  rw [this]
+
+/-- the attempt in progress is retried: the next attempt is in progress -/
+theorem Att.next {P : Program} {n k inv : Nat} {kw : Kwargs} (a : Att P val n k kw inv)
+    (hd : Retry.decide (P.cfg n) k (P.body n kw inv k) = .retry) : Att P val n (k + 1) kw inv := by
+  obtain ⟨hkw, hpr, hinv, h1, h2, hpre⟩ := a
+  obtain ⟨e, _, _, hne⟩ := (Retry.decide_retry_iff _ _ _).mp hd
+  refine ⟨hkw, hpr, hinv, by omega, by omega, ?_⟩
+  intro j hj1 hj2
+  by_cases hjk : j = k
+  · subst hjk; subst hinv; exact hd
+  · exact hpre j hj1 (by omega)
+
+theorem Solution.value_of_final {P : Program} {d : DagRef} (hs : Solution P d val) {n : Node} (hn : n ∈ d.nodes)
+    (hpr : (P.g.preds n).all (fun p => (val p).isSome) = true) {v : Val}
+    (hf : finalOf P n (kwFrom P val n) = some (.value v) ∨
+          (finalOf P n (kwFrom P val n) = some .default ∧ v = P.dflt n (kwFrom P val n))) : val n = some v := by
+  rw [hs.eq n hn, hpr]
+  simp only [if_true, valueOf]
+  rcases hf with h | ⟨h, rfl⟩ <;> rw [h]
 
 theorem wakeSet_noErr (ks : List Key) (evs : List Node) (tk : Task) (e : Exc) :
     (wakeSet ks evs tk).st = .done (.exc e) ↔ tk.st = .done (.exc e) := by
@@ -528,10 +629,10 @@ theorem wakeSet_noErr (ks : List Key) (evs : List Node) (tk : Task) (e : Exc) :
 /-- **a step of the node task of `n = L[i]`**: the task list is re-mapped by a batch of notifications and task `2 + i`
 is replaced; the result of `n` may have been stored.  If the notifications cover everybody whose wait predicate may
 have become true, the invariant is preserved. -/
-theorem pinv_node_step {P : Program} {d : DagRef} (hp : PlainP P d) {s s' : St} (h : PInv P d s)
+theorem pinv_node_step {P : Program} {d : DagRef} (hp : PlainP P d) {s s' : St} (h : PInv P d val s)
     (L : List Node) (hlen : s.tasks.length = 2 + L.length)
     (hmain : ∃ tk, s.tasks[1]? = some tk ∧ MainOK P d s L tk)
-    (hnodes : ∀ i (h : i < L.length), ∃ tk, s.tasks[2 + i]? = some tk ∧ NodeTaskOK P d s L[i] tk)
+    (hnodes : ∀ i (h : i < L.length), ∃ tk, s.tasks[2 + i]? = some tk ∧ NodeTaskOK P d val s L[i] tk)
     (hfresh : ∀ n, n ∉ L → s.proc n = false ∧ s.res n = none)
     (i : Nat) (hi : i < L.length) (K : List Key) (E : List Node) (tk' : Task)
     (htasks : s'.tasks = (s.tasks.map (wakeSet K E)).set (2 + i) tk')
@@ -539,11 +640,11 @@ theorem pinv_node_step {P : Program} {d : DagRef} (hp : PlainP P d) {s s' : St} 
     (hproc : ∀ m, m ≠ L[i] → s'.proc m = s.proc m)
     (hres : ∀ m, m ≠ L[i] → s'.res m = s.res m)
     (hold : s.res L[i] = none)
-    (hnew : NodeTaskOK P d s' L[i] tk')
+    (hnew : NodeTaskOK P d val s' L[i] tk')
     (hwake_succ : ∀ m, L[i] ∈ P.g.preds m → s'.res L[i] ≠ none → Key.node m ∈ K)
     (hwake_out : L[i] = P.g.output → s'.res L[i] ≠ none → Key.node P.g.output ∈ K)
     (hwake_run : (s'.res L[i] ≠ none ∨ ∃ e, tk'.st = .done (.exc e)) → Key.run ∈ K) :
-    PInv P d s' := by
+    PInv P d val s' := by
   have hlen' : s'.tasks.length = 2 + L.length := by rw [htasks]; simp [hlen]
   have hget : ∀ j, j ≠ 2 + i → s'.tasks[j]? = (s.tasks[j]?).map (wakeSet K E) := by
     intro j hj
@@ -626,7 +727,10 @@ theorem pinv_node_step {P : Program} {d : DagRef} (hp : PlainP P d) {s s' : St} 
       have hne : L[j] ≠ L[i] := by
         intro he
         exact hji ((List.getElem_inj hnd).mp he)
-      refine ⟨tk, ?_, hok.frame (hproc _ hne) (hres _ hne)⟩
+      refine ⟨tk, ?_, hok.frame (hproc _ hne) (hres _ hne) (fun p hpp => by
+        by_cases hpi : p = L[i]
+        · subst hpi; rw [hold] at hpp; simp at hpp
+        · rw [hres p hpi]; exact hpp)⟩
       rw [hget (2 + j) (by omega), htk]
       simp [hok.wake_id]
   · intro n hn
@@ -638,6 +742,7 @@ end MLPE.Eng
 
 namespace MLPE.Eng
 open MLPE
+variable {val : Node → Option Val}
 
 /-! ### effects of the elementary task updates -/
 
@@ -675,19 +780,21 @@ end MLPE.Eng
 
 namespace MLPE.Eng
 open MLPE
+variable {val : Node → Option Val}
 
 theorem Quiet.of_eq {s s' : St} (h : Quiet s) (h1 : s'.resHid = s.resHid) (h2 : s'.procHid = s.procHid)
-    (h3 : s'.opened = s.opened) (h4 : s'.sw = s.sw) (h5 : s'.additional = s.additional) : Quiet s' :=
+    (h3 : s'.opened = s.opened) (h4 : s'.sw = s.sw) (h5 : s'.additional = s.additional)
+    (h6 : s'.hideCount = s.hideCount := by rfl) (h7 : s'.outcome = s.outcome := by rfl) : Quiet s' :=
   ⟨fun n => by rw [h1]; exact h.resHid n, fun n => by rw [h2]; exact h.procHid n, fun n => by rw [h3]; exact h.opened n,
-   fun n => by rw [h4]; exact h.sw n, fun n => by rw [h5]; exact h.addl n⟩
+   fun n => by rw [h4]; exact h.sw n, fun n => by rw [h5]; exact h.addl n, fun n => by rw [h6]; exact h.hides n, by rw [h7]; exact h.pend⟩
 
 /-- the situation in which a node task of a plain run takes a step: the invariant holds in `s`, the task is task
 `2 + i` of node `L[i]`; `s1` is `s` after the task has (possibly) marked its node processed -/
-structure NodeStepCtx (P : Program) (d : DagRef) (s s1 : St) (L : List Node) (i : Nat) (c : Ctx) (tk : Task) : Prop where
-  inv    : PInv P d s
+structure NodeStepCtx (P : Program) (d : DagRef) (val : Node → Option Val) (s s1 : St) (L : List Node) (i : Nat) (c : Ctx) (tk : Task) : Prop where
+  inv    : PInv P d val s
   len    : s.tasks.length = 2 + L.length
   main   : ∃ tk, s.tasks[1]? = some tk ∧ MainOK P d s L tk
-  nodes  : ∀ j (h : j < L.length), ∃ tk, s.tasks[2 + j]? = some tk ∧ NodeTaskOK P d s L[j] tk
+  nodes  : ∀ j (h : j < L.length), ∃ tk, s.tasks[2 + j]? = some tk ∧ NodeTaskOK P d val s L[j] tk
   fresh  : ∀ n, n ∉ L → s.proc n = false ∧ s.res n = none
   hi     : i < L.length
   cP     : c.P = P
@@ -703,11 +810,11 @@ structure NodeStepCtx (P : Program) (d : DagRef) (s s1 : St) (L : List Node) (i 
 
 /-- terminal 1/2: the task suspends (awaits its body or sleeps) or yields -/
 theorem node_step_suspend {P : Program} {d : DagRef} (hp : PlainP P d) {s s1 : St} {L : List Node} {i : Nat} {c : Ctx}
-    {tk : Task} (x : NodeStepCtx P d s s1 L i c tk) (fr : List Frame) (st : TaskSt) (s' : St)
+    {tk : Task} (x : NodeStepCtx P d val s s1 L i c tk) (fr : List Frame) (st : TaskSt) (s' : St)
     (hs' : s' = s1.setTask c.t { tk with frames := fr, st := st }) (hst : ∀ e, st ≠ .done (.exc e))
     (hnew : ∀ s'' : St, s''.proc (L[i]'x.hi) = true → s''.res (L[i]'x.hi) = none →
-      NodeTaskOK P d s'' (L[i]'x.hi) { frames := fr, st := st, name := .node (L[i]'x.hi) }) :
-    PInv P d s' := by
+      NodeTaskOK P d val s'' (L[i]'x.hi) { frames := fr, st := st, name := .node (L[i]'x.hi) }) :
+    PInv P d val s' := by
   have hi := x.hi
   apply pinv_node_step hp x.inv L x.len x.main x.nodes x.fresh i hi [] [] { tk with frames := fr, st := st }
   · rw [hs', map_wakeSet_nil, ← x.tasks1, x.ct]; rfl
@@ -738,6 +845,7 @@ end MLPE.Eng
 
 namespace MLPE.Eng
 open MLPE
+variable {val : Node → Option Val}
 
 theorem run_mem_finallyKeys (P : Program) (d : DagRef) (n : Node) : Key.run ∈ finallyKeys P d n := by
   simp [finallyKeys]
@@ -767,10 +875,12 @@ theorem wakeSet_name (ks : List Key) (evs : List Node) (tk : Task) :
 
 /-- terminal 3/4: the node task ends (with a value stored, or with an exception) after the `finally` notifications -/
 theorem node_step_finish {P : Program} {d : DagRef} (hp : PlainP P d) {s s1 : St} {L : List Node} {i : Nat} {c : Ctx}
-    {tk : Task} (x : NodeStepCtx P d s s1 L i c tk) (s2 : St) (r : TaskRes) (obs : List Obs) (s' : St)
-    (hs2 : (s2 = s1 ∧ ∃ e, r = .exc e) ∨ (∃ v, s2 = s1.setRes (L[i]'x.hi) v ∧ (v.isRecur = false ∧ v.isExc = false) ∧ r = .ok))
+    {tk : Task} (x : NodeStepCtx P d val s s1 L i c tk) (s2 : St) (r : TaskRes) (obs : List Obs) (s' : St)
+    (hs2 : (s2 = s1 ∧ ∃ e, r = .exc e ∧ Track P d val (NodeFails P val (L[i]'x.hi) e)) ∨
+      (∃ v, s2 = s1.setRes (L[i]'x.hi) v ∧ (v.isRecur = false ∧ v.isExc = false) ∧ r = .ok ∧
+        Track P d val (val (L[i]'x.hi) = some v)))
     (hs' : s' = (endTask c (nodeFinally P s2 d (L[i]'x.hi) true) obs r).1) :
-    PInv P d s' := by
+    PInv P d val s' := by
   have hi := x.hi
   have ht2 : s2.tasks = s.tasks := by
     rcases hs2 with ⟨h, _⟩ | ⟨v, h, _⟩ <;> rw [h]
@@ -792,7 +902,7 @@ theorem node_step_finish {P : Program} {d : DagRef} (hp : PlainP P d) {s s1 : St
     rcases hs2 with ⟨h, _⟩ | ⟨v, h, _⟩
     · rw [h]; exact x.quiet1
     · rw [h]
-      refine ⟨fun n => ?_, x.quiet1.procHid, x.quiet1.opened, x.quiet1.sw, x.quiet1.addl⟩
+      refine ⟨fun n => ?_, x.quiet1.procHid, x.quiet1.opened, x.quiet1.sw, x.quiet1.addl, x.quiet1.hides, x.quiet1.pend⟩
       simp only [St.setRes, upd]
       split
       · rfl
@@ -805,7 +915,7 @@ theorem node_step_finish {P : Program} {d : DagRef} (hp : PlainP P d) {s s1 : St
     cases hw : wakeSet (finallyKeys P d L[i]) [L[i]] tk
     rw [hw] at hn1 hn2
     simp_all
-  · rw [hs', hend]; exact hq2.of_eq hf2 hf4 hf5 hf6 hf7
+  · rw [hs', hend]; exact hq2.of_eq hf2 hf4 hf5 hf6 hf7 (nodeFinally_hideCount P s2 d L[i] true).1 hf8
   · intro p v hv
     rw [hres'] at hv
     rcases hs2 with ⟨h, _⟩ | ⟨v0, h, hv0, _⟩
@@ -823,13 +933,14 @@ theorem node_step_finish {P : Program} {d : DagRef} (hp : PlainP P d) {s s1 : St
     · rw [h]; simp only [St.setRes, upd, hm, if_false]; rw [x.res1]
   · exact x.resN
   · have hrn : s'.res L[i] = s2.res L[i] := by rw [hres']
-    rcases hs2 with ⟨h, e, he⟩ | ⟨v0, h, _, he⟩
+    rcases hs2 with ⟨h, e, he, htr⟩ | ⟨v0, h, _, he, htr⟩
     · subst he
-      refine .doneExc e (by rw [hproc', hproc2]; exact x.procN) ?_
+      refine .doneExc e (by rw [hproc', hproc2]; exact x.procN) ?_ htr
       rw [hrn, h, x.res1]; exact x.resN
     · subst he
-      refine .doneOk (by rw [hproc', hproc2]; exact x.procN) ?_
-      rw [hrn, h]; simp [St.setRes]
+      refine .doneOk (by rw [hproc', hproc2]; exact x.procN) ?_ ?_
+      · rw [hrn, h]; simp [St.setRes]
+      · intro hsol; rw [hrn, h, htr hsol]; simp [St.setRes]
   · intro m hm _; exact succ_mem_finallyKeys hp _ m hm
   · intro ho _; rw [ho]; exact out_mem_finallyKeys hp
   · intro _; exact run_mem_finallyKeys P d _
@@ -838,77 +949,119 @@ end MLPE.Eng
 
 namespace MLPE.Eng
 open MLPE
+variable {val : Node → Option Val}
 
 /-- a node of a plain run produced the value `v`: `on_node_complete(None)`, store, save, `finally`, task ends -/
 theorem node_success_plain {P : Program} {d : DagRef} (hp : PlainP P d) {s s1 : St} {L : List Node} {i : Nat} {c : Ctx}
-    {tk : Task} (x : NodeStepCtx P d s s1 L i c tk) (obs : List Obs) (v : Val) (hv : v.isRecur = false ∧ v.isExc = false) :
-    PInv P d (nodeSuccess c s1 obs d (L[i]'x.hi) [] v).1 := by
+    {tk : Task} (x : NodeStepCtx P d val s s1 L i c tk) (obs : List Obs) (v : Val) (hv : v.isRecur = false ∧ v.isExc = false)
+    (htr : Track P d val (val (L[i]'x.hi) = some v)) :
+    PInv P d val (nodeSuccess c s1 obs d (L[i]'x.hi) [] v).1 := by
   have hcb : ∀ k n, c.P.cbYield k n = 0 := by rw [x.cP]; exact hp.noCb
   simp only [nodeSuccess, hcb, cbThen, nodePost, recSpawn, hv.1, Bool.false_eq_true, if_false, storeIf, if_true,
     Bool.not_false, Bool.true_and, Bool.and_true]
   split
   · simp only [nodeFinish, retTo]
-    exact node_step_finish hp x (s1.setRes _ v) .ok _ _ (Or.inr ⟨v, rfl, hv, rfl⟩) (by rw [x.cP])
+    exact node_step_finish hp x (s1.setRes _ v) .ok _ _ (Or.inr ⟨v, rfl, hv, rfl, htr⟩) (by rw [x.cP])
   · simp only [retTo]
-    exact node_step_finish hp x (s1.setRes _ v) .ok _ _ (Or.inr ⟨v, rfl, hv, rfl⟩) (by rw [x.cP])
+    exact node_step_finish hp x (s1.setRes _ v) .ok _ _ (Or.inr ⟨v, rfl, hv, rfl, htr⟩) (by rw [x.cP])
 
 /-- a node of a plain run failed for good with `e` -/
 theorem node_fail_plain {P : Program} {d : DagRef} (hp : PlainP P d) {s s1 : St} {L : List Node} {i : Nat} {c : Ctx}
-    {tk : Task} (x : NodeStepCtx P d s s1 L i c tk) (obs : List Obs) (e : Exc) :
-    PInv P d (nodeFail c s1 obs d (L[i]'x.hi) [] e).1 := by
+    {tk : Task} (x : NodeStepCtx P d val s s1 L i c tk) (obs : List Obs) (e : Exc)
+    (htr : Track P d val (NodeFails P val (L[i]'x.hi) e)) :
+    PInv P d val (nodeFail c s1 obs d (L[i]'x.hi) [] e).1 := by
   have hcb : ∀ k n, c.P.cbYield k n = 0 := by rw [x.cP]; exact hp.noCb
   simp only [nodeFail, hcb, cbThen, nodeFailCont, hp.notOneof, Bool.false_eq_true, if_false, raiseOut, unwindFrames]
-  exact node_step_finish hp x s1 (.exc e) _ _ (Or.inl ⟨rfl, e, rfl⟩) (by rw [x.cP])
+  exact node_step_finish hp x s1 (.exc e) _ _ (Or.inl ⟨rfl, e, rfl, htr⟩) (by rw [x.cP])
 
 theorem node_afterBody_plain {P : Program} {d : DagRef} (hp : PlainP P d) {s s1 : St} {L : List Node} {i : Nat} {c : Ctx}
-    {tk : Task} (x : NodeStepCtx P d s s1 L i c tk) (obs : List Obs) (k : Nat) (kw : Kwargs) (inv : Nat) :
-    PInv P d (nodeAfterBody c s1 obs d (L[i]'x.hi) false [] k kw inv (P.body (L[i]'x.hi) kw inv k)).1 := by
+    {tk : Task} (x : NodeStepCtx P d val s s1 L i c tk) (obs : List Obs) (k : Nat) (kw : Kwargs) (inv : Nat)
+    (hatt : Track P d val (Att P val (L[i]'x.hi) k kw inv)) :
+    PInv P d val (nodeAfterBody c s1 obs d (L[i]'x.hi) false [] k kw inv (P.body (L[i]'x.hi) kw inv k)).1 := by
   have hcb : ∀ k n, c.P.cbYield k n = 0 := by rw [x.cP]; exact hp.noCb
-  have hdf : ∀ obs', PInv P d (nodeDefault c s1 obs' d (L[i]'x.hi) [] kw).1 := by
-    intro obs'
+  have hmem : L[i]'x.hi ∈ d.nodes := by
+    obtain ⟨mtk, _, hmok⟩ := x.main
+    exact hmok.mem_nodes (List.getElem_mem x.hi)
+  -- the policy ends with the default
+  have hdf : ∀ obs', Retry.decide (P.cfg (L[i]'x.hi)) k (P.body (L[i]'x.hi) kw inv k) = .done .default →
+      PInv P d val (nodeDefault c s1 obs' d (L[i]'x.hi) [] kw).1 := by
+    intro obs' hd
     simp only [nodeDefault]
-    exact node_success_plain hp x _ _ (by rw [x.cP]; exact hp.noRecurD _ _)
+    refine node_success_plain hp x _ _ (by rw [x.cP]; exact hp.noRecurD _ _) ?_
+    intro hsol
+    have a := hatt hsol
+    rw [x.cP]
+    exact hsol.value_of_final hmem a.preds (Or.inr ⟨a.final _ hd, by rw [a.kw_eq]⟩)
+  have hfl : ∀ (_ : List Obs) (e : Exc), Retry.decide (P.cfg (L[i]'x.hi)) k (P.body (L[i]'x.hi) kw inv k) = .done (.failed e) →
+      Track P d val (NodeFails P val (L[i]'x.hi) e) := by
+    intro _ e hd hsol
+    have a := hatt hsol
+    exact ⟨a.preds, a.final _ hd⟩
   unfold nodeAfterBody
   cases ho : P.body (L[i]'x.hi) kw inv k with
-  | ret v => exact node_success_plain hp x obs v (hp.noRecur _ _ _ _ _ ho)
+  | ret v =>
+    refine node_success_plain hp x obs v (hp.noRecur _ _ _ _ _ ho) ?_
+    intro hsol
+    have a := hatt hsol
+    exact hsol.value_of_final hmem a.preds (Or.inl (a.final _ (by rw [ho]; rfl)))
   | raise e =>
     simp only []
     split
-    · split
-      · split
-        · exact hdf _
-        · exact node_fail_plain hp x _ e
-      · -- retried: on_node_complete(error), then sleep / yield
+    · next hrt =>
+      rw [x.cP] at hrt
+      split
+      · next hk =>
+        rw [x.cP] at hk
+        split
+        · next hud => rw [x.cP] at hud; exact hdf _ (by rw [ho]; simp [Retry.decide, hrt, hk, hud])
+        · next hud =>
+          rw [x.cP] at hud
+          exact node_fail_plain hp x _ e (hfl obs e (by rw [ho]; simp [Retry.decide, hrt, hk, hud]))
+      · next hk =>
+        rw [x.cP] at hk
+        -- retried: on_node_complete(error), then sleep / yield
+        have hnext : Track P d val (Att P val (L[i]'x.hi) (k + 1) kw inv) := by
+          intro hsol
+          exact (hatt hsol).next (by rw [ho]; simp [Retry.decide, hrt, hk])
         simp only [hcb, cbThen, nodeSleep]
         split
         · rw [block_tasks c s1 _ _ _ tk (by rw [x.tasks1, x.ct]; exact x.htk)]
           exact node_step_suspend hp x _ _ _ rfl (by intro e; simp)
-            (fun s'' h1 h2 => .sleeping k kw inv _ h1 h2)
+            (fun s'' h1 h2 => .sleeping k kw inv _ h1 h2 hnext)
         · rw [yield_tasks c s1 _ _ tk (by rw [x.tasks1, x.ct]; exact x.htk)]
           exact node_step_suspend hp x _ _ _ rfl (by intro e; simp)
-            (fun s'' h1 h2 => .slept k kw inv h1 h2)
-    · split
-      · split
-        · exact hdf _
-        · exact node_fail_plain hp x _ e
-      · simp only [raiseOut, unwindFrames]
-        exact node_step_finish hp x s1 (.exc e) _ _ (Or.inl ⟨rfl, e, rfl⟩) (by rw [x.cP])
+            (fun s'' h1 h2 => .slept k kw inv h1 h2 hnext)
+    · next hrt =>
+      rw [x.cP] at hrt
+      split
+      · next hex =>
+        split
+        · next hud => rw [x.cP] at hud; exact hdf _ (by rw [ho]; simp [Retry.decide, hrt, hex, hud])
+        · next hud =>
+          rw [x.cP] at hud
+          exact node_fail_plain hp x _ e (hfl obs e (by rw [ho]; simp [Retry.decide, hrt, hex, hud]))
+      · next hex =>
+        simp only [raiseOut, unwindFrames]
+        exact node_step_finish hp x s1 (.exc e) _ _
+          (Or.inl ⟨rfl, e, rfl, hfl obs e (by rw [ho]; simp [Retry.decide, hrt, hex])⟩) (by rw [x.cP])
 
 /-- one attempt: the body runs inline, or the task suspends until it completes -/
 theorem node_attempt_plain {P : Program} {d : DagRef} (hp : PlainP P d) {s s1 : St} {L : List Node} {i : Nat} {c : Ctx}
-    {tk : Task} (x : NodeStepCtx P d s s1 L i c tk) (obs : List Obs) (k : Nat) (kw : Kwargs) (inv : Nat) :
-    PInv P d (nodeAttempt c s1 obs d (L[i]'x.hi) false [] k kw inv).1 := by
+    {tk : Task} (x : NodeStepCtx P d val s s1 L i c tk) (obs : List Obs) (k : Nat) (kw : Kwargs) (inv : Nat)
+    (hatt : Track P d val (Att P val (L[i]'x.hi) k kw inv)) :
+    PInv P d val (nodeAttempt c s1 obs d (L[i]'x.hi) false [] k kw inv).1 := by
   simp only [nodeAttempt, Bool.false_eq_true, if_false, x.cP]
   split
-  · exact node_afterBody_plain hp x (obs ++ [.body (L[i]'x.hi) inv k kw]) k kw inv
+  · exact node_afterBody_plain hp x (obs ++ [.body (L[i]'x.hi) inv k kw]) k kw inv hatt
   all_goals
     rw [block_tasks c s1 _ _ _ tk (by rw [x.tasks1, x.ct]; exact x.htk)]
-    exact node_step_suspend hp x _ _ _ rfl (by intro e; simp) (fun s'' h1 h2 => .inBody k kw inv h1 h2)
+    exact node_step_suspend hp x _ _ _ rfl (by intro e; simp) (fun s'' h1 h2 => .inBody k kw inv h1 h2 hatt)
 
 end MLPE.Eng
 
 namespace MLPE.Eng
 open MLPE
+variable {val : Node → Option Val}
 
 theorem nodeKwargs_plain {P : Program} {d : DagRef} (hp : PlainP P d) (s : St) (hq : Quiet s)
     (hres : ∀ p v, s.res p = some v → v.isRecur = false ∧ v.isExc = false) (n : Node) :
@@ -942,31 +1095,84 @@ theorem nodeKwargs_plain {P : Program} {d : DagRef} (hp : PlainP P d) (s : St) (
   obtain ⟨kw, hkw⟩ := hb
   exact ⟨kw, by simp [nodeKwargs, hkw, hq.addl]⟩
 
+/-- results agree with the solution: every stored result was produced by a finished node task -/
+theorem agree_of_nodes {P : Program} {d : DagRef} {s : St} {L : List Node}
+    (hnodes : ∀ j (h : j < L.length), ∃ tk, s.tasks[2 + j]? = some tk ∧ NodeTaskOK P d val s L[j] tk)
+    (hfresh : ∀ n, n ∉ L → s.proc n = false ∧ s.res n = none) (p : Node) (v : Val) (hv : s.res p = some v) :
+    Track P d val (val p = some v) := by
+  by_cases hp : p ∈ L
+  · obtain ⟨j, hj, rfl⟩ := List.getElem_of_mem hp
+    obtain ⟨tk, _, hok⟩ := hnodes j hj
+    cases hok with
+    | fresh _ h2 => rw [h2] at hv; cases hv
+    | inBody _ _ _ _ h2 => rw [h2] at hv; cases hv
+    | bodyDone _ _ _ _ h2 => rw [h2] at hv; cases hv
+    | sleeping _ _ _ _ _ h2 => rw [h2] at hv; cases hv
+    | slept _ _ _ _ h2 => rw [h2] at hv; cases hv
+    | doneExc _ _ h2 => rw [h2] at hv; cases hv
+    | doneOk _ _ h3 => intro hsol; rw [h3 hsol, hv]
+  · rw [(hfresh p hp).2] at hv; cases hv
+
+/-- with all sources available and agreeing with `val`, the engine's kwargs are the declared ones -/
+theorem nodeKwargs_eq_kwFrom {P : Program} {d : DagRef} (hp : PlainP P d) (s : St) (hq : Quiet s) (n : Node)
+    (hall : ∀ p ∈ P.g.preds n, ∃ v, s.res p = some v ∧ val p = some v ∧ v.isExc = false) :
+    nodeKwargs P s n = .ok (kwFrom P val n) := by
+  have hfold : ∀ (es : List Edge) (kw0 : Kwargs), (∀ e ∈ es, e.u ∈ P.g.preds n) →
+      es.foldl (kwStep P s) (KwRes.ok kw0) = .ok (es.foldl (fun kw e => match e.kwarg with
+        | some k => insertKw kw k ((val e.u).getD .none)
+        | none => kw) kw0) := by
+    intro es
+    induction es with
+    | nil => intro kw0 _; rfl
+    | cons e es ih =>
+      intro kw0 hmem
+      simp only [List.foldl_cons, kwStep]
+      obtain ⟨v, hv1, hv2, hv3⟩ := hall e.u (hmem e (by simp))
+      cases hk : e.kwarg with
+      | none => exact ih kw0 (fun e' he' => hmem e' (by simp [he']))
+      | some k =>
+        simp only [hp.noSwitch, Bool.false_eq_true, if_false]
+        have hput : kwPut kw0 k (s.getHid e.u) = .ok (insertKw kw0 k ((val e.u).getD .none)) := by
+          simp only [St.getHid, hv1, hv2, Option.getD_some]
+          cases v <;> simp [Val.isExc] at hv3 <;> rfl
+        rw [hput]
+        exact ih _ (fun e' he' => hmem e' (by simp [he']))
+  have hb : kwBase P s n = .ok (kwFrom P val n) := by
+    unfold kwBase kwFrom
+    split
+    · rfl
+    · apply hfold
+      intro e he
+      simp only [List.mem_filter] at he
+      simp only [Graph.preds, List.mem_map, List.mem_filter]
+      exact ⟨e, he, rfl⟩
+  simp [nodeKwargs, hb, hq.addl]
+
 theorem quiet_markProcessed {s : St} (h : Quiet s) (n : Node) : Quiet (s.markProcessed n) := by
-  refine ⟨h.resHid, fun m => ?_, h.opened, h.sw, h.addl⟩
+  refine ⟨h.resHid, fun m => ?_, h.opened, h.sw, h.addl, h.hides, h.pend⟩
   simp only [St.markProcessed, upd]
   split
   · rfl
   · exact h.procHid m
 
 /-- **every section of a node task preserves the invariant** -/
-theorem pinv_step_node {P : Program} {d : DagRef} (hp : PlainP P d) {s : St} (h : PInv P d s)
+theorem pinv_step_node {P : Program} {d : DagRef} (hp : PlainP P d) {s : St} (h : PInv P d val s)
     (L : List Node) (hlen : s.tasks.length = 2 + L.length)
     (hmain : ∃ tk, s.tasks[1]? = some tk ∧ MainOK P d s L tk)
-    (hnodes : ∀ j (h : j < L.length), ∃ tk, s.tasks[2 + j]? = some tk ∧ NodeTaskOK P d s L[j] tk)
+    (hnodes : ∀ j (h : j < L.length), ∃ tk, s.tasks[2 + j]? = some tk ∧ NodeTaskOK P d val s L[j] tk)
     (hfresh : ∀ n, n ∉ L → s.proc n = false ∧ s.res n = none)
     (i : Nat) (hi : i < L.length) (c : Ctx) (hcP : c.P = P) (hct : c.t = 2 + i) (out : Out)
-    (hs : stepTask c s = some out) : PInv P d out.1 := by
+    (hs : stepTask c s = some out) (hci : CoreInv s.core) : PInv P d val out.1 := by
   obtain ⟨tk, htk, hok⟩ := hnodes i hi
   have mk : ∀ (s1 : St) (tk0 : Task), s.tasks[2 + i]? = some tk0 → tk0.name = .node L[i] → tk0.mustCancel = false →
       s1.tasks = s.tasks → s1.res = s.res → (∀ m, m ≠ L[i] → s1.proc m = s.proc m) → s1.proc L[i] = true → Quiet s1 →
-      s.res L[i] = none → NodeStepCtx P d s s1 L i c tk0 :=
+      s.res L[i] = none → NodeStepCtx P d val s s1 L i c tk0 :=
     fun s1 tk0 a1 a2 a3 a4 a5 a6 a7 a8 a9 =>
       ⟨h, hlen, hmain, hnodes, hfresh, hi, hcP, hct, a1, ⟨a2, a3⟩, a4, a5, a6, a7, a8, a9⟩
   unfold stepTask at hs
   rw [hct, htk] at hs
   cases hok with
-  | fresh h1 h2 =>
+  | fresh h1 h2 h3 =>
     simp only [Bool.false_eq_true, if_false] at hs
     obtain rfl := Option.some.inj hs
     have hpe : s.procExists L[i] = false := by simp [St.procExists, h1]
@@ -976,26 +1182,46 @@ theorem pinv_step_node {P : Program} {d : DagRef} (hp : PlainP P d) {s : St} (h 
       (by intro m hm; simp [St.markProcessed, upd, hm]) (by simp [St.markProcessed]) (quiet_markProcessed h.quiet _) h2
     obtain ⟨kw, hkw⟩ := nodeKwargs_plain hp (s.markProcessed L[i]) (quiet_markProcessed h.quiet _) (fun p v hv => h.noRecRes p v hv) L[i]
     rw [hcP, hkw]
-    exact node_attempt_plain hp x _ 1 kw _
+    refine node_attempt_plain hp x _ 1 kw _ ?_
+    intro hsol
+    -- every source has a result that agrees with the solution
+    have hall : ∀ p ∈ P.g.preds L[i], ∃ v, (s.markProcessed L[i]).res p = some v ∧ val p = some v ∧ v.isExc = false := by
+      intro p hpp
+      have := h3 p hpp
+      cases hr : s.res p with
+      | none => rw [hr] at this; simp at this
+      | some v => exact ⟨v, hr, agree_of_nodes hnodes hfresh p v hr hsol, (h.noRecRes p v hr).2⟩
+    have hkw' := nodeKwargs_eq_kwFrom hp (s.markProcessed L[i]) (quiet_markProcessed h.quiet _) L[i] hall
+    rw [hkw] at hkw'
+    have hinv0 : s.invCount L[i] = 0 := by
+      have := (hci L[i]).2
+      simp only [St.core, h1, Bool.false_and, Bool.false_eq_true, false_or, h.quiet.hides] at this
+      omega
+    refine ⟨by injection hkw', ?_, hinv0, Nat.le_refl 1, Retry.attemptsEff_pos _, fun j h1 h2 => by omega⟩
+    rw [List.all_eq_true]
+    intro p hpp
+    obtain ⟨v, _, hv, _⟩ := hall p hpp
+    simp [hv]
   | inBody k kw inv h1 h2 => simp at hs
   | sleeping k kw inv dl h1 h2 => simp at hs
   | doneOk h1 => simp at hs
   | doneExc e h1 => simp at hs
-  | bodyDone k kw inv h1 h2 =>
+  | bodyDone k kw inv h1 h2 h3 =>
     simp only [Bool.false_eq_true, if_false] at hs
     obtain rfl := Option.some.inj hs
     have x := mk s _ htk rfl rfl rfl rfl (fun _ _ => rfl) h1 h.quiet h2
-    exact node_afterBody_plain hp x [] k kw inv
-  | slept k kw inv h1 h2 =>
+    exact node_afterBody_plain hp x [] k kw inv h3
+  | slept k kw inv h1 h2 h3 =>
     simp only [Bool.false_eq_true, if_false] at hs
     obtain rfl := Option.some.inj hs
     have x := mk s _ htk rfl rfl rfl rfl (fun _ _ => rfl) h1 h.quiet h2
-    exact node_attempt_plain hp x [] (k + 1) kw inv
+    exact node_attempt_plain hp x [] (k + 1) kw inv h3
 
 end MLPE.Eng
 
 namespace MLPE.Eng
 open MLPE
+variable {val : Node → Option Val}
 
 theorem MainOK.frame {P : Program} {d : DagRef} {s s' : St} {L : List Node} {tk : Task} (h : MainOK P d s L tk)
     (hp : s'.proc = s.proc) (hr : s'.res = s.res) : MainOK P d s' L tk := by
@@ -1016,12 +1242,12 @@ theorem CallerOK.frame {P : Program} {s s' : St} {tk : Task} (h : CallerOK P s t
 
 /-- the task list is transformed pointwise by a function that leaves the caller and the main task alone and keeps
 every node task well-formed; nothing else changes -/
-theorem pinv_map_tasks {P : Program} {d : DagRef} {s s' : St} (h : PInv P d s) (F : Task → Task)
+theorem pinv_map_tasks {P : Program} {d : DagRef} {s s' : St} (h : PInv P d val s) (F : Task → Task)
     (htasks : s'.tasks = s.tasks.map F) (hres : s'.res = s.res) (hproc : s'.proc = s.proc)
     (hq : Quiet s')
     (hC : ∀ tk, CallerOK P s tk → F tk = tk) (hM : ∀ L tk, MainOK P d s L tk → F tk = tk)
-    (hN : ∀ n tk, NodeTaskOK P d s n tk → NodeTaskOK P d s n (F tk))
-    (hE : ∀ tk e, (F tk).st = .done (.exc e) → tk.st = .done (.exc e)) : PInv P d s' := by
+    (hN : ∀ n tk, NodeTaskOK P d val s n tk → NodeTaskOK P d val s n (F tk))
+    (hE : ∀ tk e, (F tk).st = .done (.exc e) → tk.st = .done (.exc e)) : PInv P d val s' := by
   have hlen : s'.tasks.length = s.tasks.length := by rw [htasks]; simp
   have hget : ∀ j : Nat, s'.tasks[j]? = (s.tasks[j]?).map F := by intro j; rw [htasks, List.getElem?_map]
   have hne : NoErr s → NoErr s' := by
@@ -1040,12 +1266,12 @@ theorem pinv_map_tasks {P : Program} {d : DagRef} {s s' : St} (h : PInv P d s) (
     · refine Or.inr ⟨L, by rw [hlen]; exact hl, ⟨mtk, by rw [hget 1, hm1]; simp [hM L mtk hmok], hmok.frame hproc hres⟩, ?_, ?_⟩
       · intro j hj
         obtain ⟨tk, htk, hok⟩ := hnodes j hj
-        exact ⟨F tk, by rw [hget (2 + j), htk]; rfl, (hN _ tk hok).frame (by rw [hproc]) (by rw [hres])⟩
+        exact ⟨F tk, by rw [hget (2 + j), htk]; rfl, (hN _ tk hok).frame' (by rw [hproc]) hres⟩
       · intro n hn; rw [hproc, hres]; exact hfresh n hn
 
 /-- an external completion of a node body preserves the invariant -/
-theorem pinv_step_gate {P : Program} {d : DagRef} {s : St} (h : PInv P d s) (n inv att : Nat) (out : Out)
-    (hs : step P s (.gate n inv att) = some out) : PInv P d out.1 := by
+theorem pinv_step_gate {P : Program} {d : DagRef} {s : St} (h : PInv P d val s) (n inv att : Nat) (out : Out)
+    (hs : step P s (.gate n inv att) = some out) : PInv P d val out.1 := by
   simp only [step] at hs
   split at hs
   · simp at hs
@@ -1056,17 +1282,17 @@ theorem pinv_step_gate {P : Program} {d : DagRef} {s : St} (h : PInv P d s) (n i
     · intro L tk hm; cases hm <;> rfl
     · intro m tk hn
       cases hn with
-      | inBody k kw inv' h1 h2 =>
+      | inBody k kw inv' h1 h2 h3 =>
         simp only [gateDone]
         split
-        · exact .bodyDone k kw inv' h1 h2
-        · exact .inBody k kw inv' h1 h2
-      | fresh h1 h2 => exact .fresh h1 h2
-      | bodyDone k kw inv' h1 h2 => exact .bodyDone k kw inv' h1 h2
-      | sleeping k kw inv' dl h1 h2 => exact .sleeping k kw inv' dl h1 h2
-      | slept k kw inv' h1 h2 => exact .slept k kw inv' h1 h2
-      | doneOk h0 h1 => exact .doneOk h0 h1
-      | doneExc e h0 h1 => exact .doneExc e h0 h1
+        · exact .bodyDone k kw inv' h1 h2 h3
+        · exact .inBody k kw inv' h1 h2 h3
+      | fresh h1 h2 h3 => exact .fresh h1 h2 h3
+      | bodyDone k kw inv' h1 h2 h3 => exact .bodyDone k kw inv' h1 h2 h3
+      | sleeping k kw inv' dl h1 h2 h3 => exact .sleeping k kw inv' dl h1 h2 h3
+      | slept k kw inv' h1 h2 h3 => exact .slept k kw inv' h1 h2 h3
+      | doneOk h0 h1 h3 => exact .doneOk h0 h1 h3
+      | doneExc e h0 h1 h3 => exact .doneExc e h0 h1 h3
     · intro tk e he
       obtain ⟨fr, st, mc, nm⟩ := tk
       cases st with
@@ -1083,17 +1309,18 @@ end MLPE.Eng
 
 namespace MLPE.Eng
 open MLPE
+variable {val : Node → Option Val}
 
 /-! ### steps of the main task: the launch loop -/
 
 /-- the invariant with the main task's own predicate left open (it is being stepped) -/
-structure PInvX (P : Program) (d : DagRef) (s : St) (L : List Node) : Prop where
+structure PInvX (P : Program) (d : DagRef) (val : Node → Option Val) (s : St) (L : List Node) : Prop where
   quiet    : Quiet s
   noRecRes : ∀ p v, s.res p = some v → v.isRecur = false ∧ v.isExc = false
   caller   : ∃ tk, s.tasks[0]? = some tk ∧ CallerOK P s tk
   len      : s.tasks.length = 2 + L.length
   mainTk   : ∃ tk, s.tasks[1]? = some tk ∧ tk.name = .run ∧ tk.mustCancel = false ∧ ∀ e, tk.st ≠ .done (.exc e)
-  nodes    : ∀ i (h : i < L.length), ∃ tk, s.tasks[2 + i]? = some tk ∧ NodeTaskOK P d s L[i] tk
+  nodes    : ∀ i (h : i < L.length), ∃ tk, s.tasks[2 + i]? = some tk ∧ NodeTaskOK P d val s L[i] tk
   fresh    : ∀ n, n ∉ L → s.proc n = false ∧ s.res n = none
 
 theorem noErr_setTask {s : St} (h : NoErr s) (t : Nat) (tk' : Task) (hne : ∀ e, tk'.st ≠ .done (.exc e)) :
@@ -1110,8 +1337,8 @@ theorem noErr_setTask {s : St} (h : NoErr s) (t : Nat) (tk' : Task) (hne : ∀ e
     exact h j tk e hj hst
 
 /-- closing the invariant again once the main task has been given its new frames / state -/
-theorem PInvX.close {P : Program} {d : DagRef} {s : St} {L : List Node} (x : PInvX P d s L) (tk' : Task)
-    (hne : ∀ e, tk'.st ≠ .done (.exc e)) (hm : MainOK P d s L tk') : PInv P d (s.setTask 1 tk') := by
+theorem PInvX.close {P : Program} {d : DagRef} {s : St} {L : List Node} (x : PInvX P d val s L) (tk' : Task)
+    (hne : ∀ e, tk'.st ≠ .done (.exc e)) (hm : MainOK P d s L tk') : PInv P d val (s.setTask 1 tk') := by
   have hget : ∀ j : Nat, j ≠ 1 → (s.setTask 1 tk').tasks[j]? = s.tasks[j]? := by
     intro j hj; simp [St.setTask, List.getElem?_set_ne (Ne.symm hj)]
   refine ⟨x.quiet.of_eq rfl rfl rfl rfl rfl, x.noRecRes, ?_, Or.inr ⟨L, by simp [x.len], ?_, ?_, x.fresh⟩⟩
@@ -1123,10 +1350,10 @@ theorem PInvX.close {P : Program} {d : DagRef} {s : St} {L : List Node} (x : PIn
     rw [List.getElem?_set_self (by rw [x.len]; omega)]
   · intro i hi
     obtain ⟨tk, htk, hok⟩ := x.nodes i hi
-    exact ⟨tk, by rw [hget (2 + i) (by omega)]; exact htk, hok.frame rfl rfl⟩
+    exact ⟨tk, by rw [hget (2 + i) (by omega)]; exact htk, hok.frame' rfl rfl⟩
 
-theorem PInvX.spawnNode {P : Program} {d : DagRef} {s : St} {L : List Node} (x : PInvX P d s L) (m : Node)
-    (hm : m ∉ L) : PInvX P d (spawn s [.node d m false .start] (.node m)).1 (L ++ [m]) := by
+theorem PInvX.spawnNode {P : Program} {d : DagRef} {s : St} {L : List Node} (x : PInvX P d val s L) (m : Node)
+    (hm : m ∉ L) (hrdy : ∀ p ∈ P.g.preds m, (s.res p).isSome = true) : PInvX P d val (spawn s [.node d m false .start] (.node m)).1 (L ++ [m]) := by
   have hget : ∀ j : Nat, j < s.tasks.length → (spawn s [.node d m false .start] (.node m)).1.tasks[j]? = s.tasks[j]? := by
     intro j hj; simp [spawn, List.getElem?_append_left hj]
   have hne : NoErr s → NoErr (spawn s [.node d m false .start] (.node m)).1 := by
@@ -1153,7 +1380,7 @@ theorem PInvX.spawnNode {P : Program} {d : DagRef} {s : St} {L : List Node} (x :
     · obtain ⟨tk, htk, hok⟩ := x.nodes i hil
       refine ⟨tk, by rw [hget (2 + i) (by rw [x.len]; omega)]; exact htk, ?_⟩
       have : (L ++ [m])[i] = L[i] := by simp [List.getElem_append_left hil]
-      rw [this]; exact hok.frame rfl rfl
+      rw [this]; exact hok.frame' rfl rfl
     · have hie : i = L.length := by simp at hi; omega
       subst hie
       refine ⟨{ frames := [.node d m false .start], st := .runnable .go, name := .node m }, ?_, ?_⟩
@@ -1161,7 +1388,7 @@ theorem PInvX.spawnNode {P : Program} {d : DagRef} {s : St} {L : List Node} (x :
         rw [List.getElem?_append_right (by rw [x.len]; omega)]
         simp [x.len]
       · have : (L ++ [m])[L.length] = m := by simp
-        rw [this]; exact .fresh fp fr
+        rw [this]; exact .fresh fp fr hrdy
   · intro n hn
     simp only [List.mem_append, List.mem_singleton, not_or] at hn
     exact x.fresh n hn.1
@@ -1170,17 +1397,18 @@ end MLPE.Eng
 
 namespace MLPE.Eng
 open MLPE
+variable {val : Node → Option Val}
 
-theorem PInv.toX {P : Program} {d : DagRef} {s : St} (h : PInv P d s) (L : List Node)
+theorem PInv.toX {P : Program} {d : DagRef} {s : St} (h : PInv P d val s) (L : List Node)
     (hl : s.tasks.length = 2 + L.length) (mtk : Task) (hm1 : s.tasks[1]? = some mtk) (hmok : MainOK P d s L mtk)
-    (hnodes : ∀ i (h : i < L.length), ∃ tk, s.tasks[2 + i]? = some tk ∧ NodeTaskOK P d s L[i] tk)
-    (hfresh : ∀ n, n ∉ L → s.proc n = false ∧ s.res n = none) : PInvX P d s L := by
+    (hnodes : ∀ i (h : i < L.length), ∃ tk, s.tasks[2 + i]? = some tk ∧ NodeTaskOK P d val s L[i] tk)
+    (hfresh : ∀ n, n ∉ L → s.proc n = false ∧ s.res n = none) : PInvX P d val s L := by
   refine ⟨h.quiet, h.noRecRes, h.caller, hl, ⟨mtk, hm1, ?_⟩, hnodes, hfresh⟩
   cases hmok <;> exact ⟨rfl, rfl, by intro e; simp⟩
 
 /-- `_run_dag`: the final wait for the destination -/
-theorem waitDest_plain {P : Program} {d : DagRef} (hp : PlainP P d) {s : St} {L : List Node} (x : PInvX P d s L)
-    (c : Ctx) (hct : c.t = 1) (obs : List Obs) (ht : TopoOrd P d L) : PInv P d (dagWaitDest c s obs d []).1 := by
+theorem waitDest_plain {P : Program} {d : DagRef} (hp : PlainP P d) {s : St} {L : List Node} (x : PInvX P d val s L)
+    (c : Ctx) (hct : c.t = 1) (obs : List Obs) (ht : TopoOrd P d L) : PInv P d val (dagWaitDest c s obs d []).1 := by
   obtain ⟨mtk, hm1, hname, hmc, _⟩ := x.mainTk
   have hm1' : s.tasks[c.t]? = some mtk := by rw [hct]; exact hm1
   simp only [dagWaitDest, hp.dest]
@@ -1206,8 +1434,8 @@ theorem waitDest_plain {P : Program} {d : DagRef} (hp : PlainP P d) {s : St} {L 
 
 /-- `_run_dag`: the launch loop, from any point of the order -/
 theorem launch_plain {P : Program} {d : DagRef} (hp : PlainP P d) (c : Ctx) (hcP : c.P = P) (hct : c.t = 1) :
-    ∀ (rest : List Node) (s : St) (L : List Node) (obs : List Obs), PInvX P d s L → TopoOrd P d (L ++ rest) →
-      PInv P d (dagLaunch c d [] s obs rest).1 := by
+    ∀ (rest : List Node) (s : St) (L : List Node) (obs : List Obs), PInvX P d val s L → TopoOrd P d (L ++ rest) →
+      PInv P d val (dagLaunch c d [] s obs rest).1 := by
   intro rest
   induction rest with
   | nil =>
@@ -1221,7 +1449,8 @@ theorem launch_plain {P : Program} {d : DagRef} (hp : PlainP P d) (c : Ctx) (hcP
     have hr : ready c.P s d m = readyP P s m := by rw [hcP]; exact ready_plain hp x.quiet (fun p v h => (x.noRecRes p v h).1) m
     simp only [dagLaunch, hr, hp.notOneof, Bool.false_and, Bool.false_eq_true, if_false]
     split
-    · have hmL : m ∉ L := by
+    · next hrd =>
+      have hmL : m ∉ L := by
         have := ht.nodup
         rw [List.nodup_append] at this
         intro hmem
@@ -1229,7 +1458,11 @@ theorem launch_plain {P : Program} {d : DagRef} (hp : PlainP P d) (c : Ctx) (hcP
       have hlf : launchFrame c.P d m = .node d m false .start := by
         simp [launchFrame, hcP, hp.noSwitch, hp.noHead]
       rw [hlf]
-      have x' := x.spawnNode m hmL
+      have x' := x.spawnNode m hmL (by
+        intro p hpp
+        unfold readyP at hrd
+        rw [List.all_eq_true] at hrd
+        exact hrd p hpp)
       exact ih _ (L ++ [m]) _ x' (by simpa using ht)
     · next hnr =>
       rw [block_tasks c s obs _ _ mtk hm1', hct]
@@ -1243,6 +1476,7 @@ end MLPE.Eng
 
 namespace MLPE.Eng
 open MLPE
+variable {val : Node → Option Val}
 
 /-- the launch order the model accepts from the oracle is a topological enumeration of the DAG -/
 theorem topoOrd_of_validOrder {P : Program} {d : DagRef} (hp : PlainP P d) {s : St} (hq : Quiet s)
@@ -1270,13 +1504,13 @@ theorem topoOrd_of_validOrder {P : Program} {d : DagRef} (hp : PlainP P d) {s : 
   simpa [List.contains_iff_mem, hpo, hn, hp.notRec, hp.noCase e he] using this
 
 /-- **every section of the main `_run_dag` task preserves the invariant** -/
-theorem pinv_step_main {P : Program} {d : DagRef} (hp : PlainP P d) {s : St} (h : PInv P d s)
+theorem pinv_step_main {P : Program} {d : DagRef} (hp : PlainP P d) {s : St} (h : PInv P d val s)
     (L : List Node) (hlen : s.tasks.length = 2 + L.length) (mtk : Task) (hm1 : s.tasks[1]? = some mtk)
     (hmok : MainOK P d s L mtk)
-    (hnodes : ∀ j (h : j < L.length), ∃ tk, s.tasks[2 + j]? = some tk ∧ NodeTaskOK P d s L[j] tk)
+    (hnodes : ∀ j (h : j < L.length), ∃ tk, s.tasks[2 + j]? = some tk ∧ NodeTaskOK P d val s L[j] tk)
     (hfresh : ∀ n, n ∉ L → s.proc n = false ∧ s.res n = none)
     (c : Ctx) (hcP : c.P = P) (hct : c.t = 1) (out : Out) (hs : stepTask c s = some out)
-    (horacle : ∀ d', mtk.frames = [.dagInit d'] → validOrder P s d' c.ord = true) : PInv P d out.1 := by
+    (horacle : ∀ d', mtk.frames = [.dagInit d'] → validOrder P s d' c.ord = true) : PInv P d val out.1 := by
   have x := h.toX L hlen mtk hm1 hmok hnodes hfresh
   unfold stepTask at hs
   rw [hct, hm1] at hs
@@ -1309,10 +1543,11 @@ end MLPE.Eng
 
 namespace MLPE.Eng
 open MLPE
+variable {val : Node → Option Val}
 
 /-- replacing the caller's task entry (its own step, or a cancellation request) -/
-theorem pinv_replace_caller {P : Program} {d : DagRef} {s : St} (h : PInv P d s) (ctk' : Task)
-    (hc : CallerOK P (s.setTask 0 ctk') ctk') : PInv P d (s.setTask 0 ctk') := by
+theorem pinv_replace_caller {P : Program} {d : DagRef} {s : St} (h : PInv P d val s) (ctk' : Task)
+    (hc : CallerOK P (s.setTask 0 ctk') ctk') : PInv P d val (s.setTask 0 ctk') := by
   have hget : ∀ j : Nat, j ≠ 0 → (s.setTask 0 ctk').tasks[j]? = s.tasks[j]? := by
     intro j hj; simp [St.setTask, List.getElem?_set_ne (Ne.symm hj)]
   obtain ⟨ctk, hc0, _⟩ := h.caller
@@ -1324,20 +1559,70 @@ theorem pinv_replace_caller {P : Program} {d : DagRef} {s : St} (h : PInv P d s)
     · refine Or.inr ⟨L, by simp [hl], ⟨mtk, by rw [hget 1 (by omega)]; exact hm1, hmok.frame rfl rfl⟩, ?_, hfresh⟩
       intro i hi
       obtain ⟨tk, htk, hok⟩ := hnodes i hi
-      exact ⟨tk, by rw [hget (2 + i) (by omega)]; exact htk, hok.frame rfl rfl⟩
+      exact ⟨tk, by rw [hget (2 + i) (by omega)]; exact htk, hok.frame' rfl rfl⟩
 
 theorem noErr_of_isEmpty {s : St} (h : (taskErrors s).isEmpty = true) : NoErr s := by
   rw [noErr_iff]; simpa using h
 
+/-- what an outcome of `chart.run` means in terms of the dataflow solution (`s` = the state the caller's last
+section started in) -/
+def OutcomeOK (P : Program) (d : DagRef) (val : Node → Option Val) (s : St) : Outcome → Prop
+  | .value v => Track P d val (val P.g.output = some v)
+  | .error e => e.isException = true ∧ Track P d val (∃ n ∈ d.nodes, NodeFails P val n e)
+  | .raised e => e.isException = false ∧ Track P d val (∃ n ∈ d.nodes, NodeFails P val n e)
+  | .cancelled => ∃ tk, s.tasks[0]? = some tk ∧ tk.mustCancel = true
+
+/-- a task error of a plain run is the failure of a launched node -/
+theorem taskError_is_node_failure {P : Program} {d : DagRef} {s : St} (h : PInv P d val s) (e : Exc)
+    (he : e ∈ taskErrors s) : Track P d val (∃ n ∈ d.nodes, NodeFails P val n e) := by
+  unfold taskErrors at he
+  rw [List.mem_filterMap] at he
+  obtain ⟨tk, htk, hst⟩ := he
+  obtain ⟨j, hj, hjt⟩ := List.getElem_of_mem htk
+  have hst' : tk.st = .done (.exc e) := by
+    cases hh : tk.st with
+    | done r => cases r <;> simp [hh] at hst; subst hst; rfl
+    | runnable _ => simp [hh] at hst
+    | blocked _ => simp [hh] at hst
+  have hget : s.tasks[j]? = some tk := by simp [hj, hjt]
+  obtain ⟨ctk, hc0, hcok⟩ := h.caller
+  rcases h.rest with ⟨h1, _⟩ | ⟨L, hl, ⟨mtk, hm1, hmok⟩, hnodes, hfresh⟩
+  · have : j = 0 := by omega
+    subst this
+    rw [hc0] at hget; cases hget
+    cases hcok <;> simp at hst'
+  · by_cases hj0 : j = 0
+    · subst hj0; rw [hc0] at hget; cases hget
+      cases hcok <;> simp at hst'
+    · by_cases hj1 : j = 1
+      · subst hj1; rw [hm1] at hget; cases hget
+        cases hmok <;> simp at hst'
+      · obtain ⟨i, rfl⟩ : ∃ i, j = 2 + i := ⟨j - 2, by omega⟩
+        have hi : i < L.length := by omega
+        obtain ⟨tk0, htk0, hok⟩ := hnodes i hi
+        rw [htk0] at hget; cases hget
+        cases hok with
+        | doneExc e' _ _ h3 =>
+          simp at hst'
+          subst hst'
+          intro hsol
+          exact ⟨L[i], hmok.mem_nodes (List.getElem_mem hi), h3 hsol⟩
+        | fresh => simp at hst'
+        | inBody => simp at hst'
+        | bodyDone => simp at hst'
+        | sleeping => simp at hst'
+        | slept => simp at hst'
+        | doneOk => simp at hst'
+
 /-- **every section of the caller's task preserves the invariant, or ends the run** -/
-theorem pinv_step_caller {P : Program} {d : DagRef} (hp : PlainP P d) {s : St} (h : PInv P d s)
+theorem pinv_step_caller {P : Program} {d : DagRef} (hp : PlainP P d) {s : St} (h : PInv P d val s)
     (c : Ctx) (hcP : c.P = P) (hct : c.t = 0) (out : Out) (hs : stepTask c s = some out) :
-    out.1.outcome ≠ none ∨ PInv P d out.1 := by
+    (∃ o, out.1.outcome = some o ∧ OutcomeOK P d val s o) ∨ PInv P d val out.1 := by
   obtain ⟨ctk, hc0, hcok⟩ := h.caller
   have hcb : ∀ k n, c.P.cbYield k n = 0 := by rw [hcP]; exact hp.noCb
-  have hret : ∀ s0 obs o, (mgrReturn c s0 obs o).1.outcome ≠ none := by
+  have hret : ∀ s0 obs o, (mgrReturn c s0 obs o).1.outcome = some o := by
     intro s0 obs o; simp [mgrReturn, St.setOutcome]
-  have hcomp : ∀ s0 obs o, (mgrComplete c s0 obs o).1.outcome ≠ none := by
+  have hcomp : ∀ s0 obs o, (mgrComplete c s0 obs o).1.outcome = some o := by
     intro s0 obs o
     unfold mgrComplete
     split
@@ -1352,7 +1637,8 @@ theorem pinv_step_caller {P : Program} {d : DagRef} (hp : PlainP P d) {s : St} (
     | true =>
       simp only [if_true] at hs
       obtain rfl := Option.some.inj hs
-      left; simp [deliverCancel, St.setOutcome]
+      left
+      exact ⟨.cancelled, by simp [deliverCancel, St.setOutcome], _, hc0, rfl⟩
     | false =>
       simp only [Bool.false_eq_true, if_false] at hs
       obtain rfl := Option.some.inj hs
@@ -1390,15 +1676,48 @@ theorem pinv_step_caller {P : Program} {d : DagRef} (hp : PlainP P d) {s : St} (
     | true =>
       simp only [if_true] at hs
       obtain rfl := Option.some.inj hs
-      left; simp [deliverCancel, St.setOutcome]
+      left
+      exact ⟨.cancelled, by simp [deliverCancel, St.setOutcome], _, hc0, rfl⟩
     | false =>
       simp only [Bool.false_eq_true, if_false] at hs
       obtain rfl := Option.some.inj hs
       simp only [mgrCheck]
       split
-      · left
+      · next hfin =>
+        left
         simp only [mgrFinish]
-        exact hcomp _ _ _
+        refine ⟨_, hcomp _ _ _, ?_⟩
+        cases hidx : (taskErrors s)[c.pick % max (taskErrors s).length 1]? with
+        | some e =>
+          have hmem : e ∈ taskErrors s := List.mem_of_getElem? hidx
+          have hnf := taskError_is_node_failure h e hmem
+          simp only []
+          split
+          · next hex => exact ⟨hex, hnf⟩
+          · next hex => exact ⟨by simpa using hex, hnf⟩
+        | none =>
+          simp only []
+          have hnil : taskErrors s = [] := by
+            cases hl : taskErrors s with
+            | nil => rfl
+            | cons a l =>
+              rw [hl] at hidx
+              have : c.pick % max (a :: l).length 1 < (a :: l).length := by
+                have : max (a :: l).length 1 = (a :: l).length := by simp
+                rw [this]; exact Nat.mod_lt _ (by simp)
+              rw [List.getElem?_eq_none_iff] at hidx
+              omega
+          simp only [hnil, List.isEmpty_nil, Bool.not_true, Bool.false_or, hcP] at hfin
+          simp only [St.exists, Bool.and_eq_true] at hfin
+          rw [hcP]
+          cases hr : s.res P.g.output with
+          | none => rw [hr] at hfin; simp at hfin
+          | some v =>
+            have : s.getHid P.g.output = v := by simp [St.getHid, hr]
+            rw [this]
+            rcases h.rest with ⟨_, h2⟩ | ⟨L, hl, _, hnodes, hfresh⟩
+            · rw [(h2 _).2] at hr; cases hr
+            · exact agree_of_nodes hnodes hfresh _ v hr
       · next hcond =>
         right
         simp only [Bool.or_eq_true, Bool.not_eq_true', not_or, Bool.not_eq_true] at hcond
@@ -1417,10 +1736,11 @@ end MLPE.Eng
 
 namespace MLPE.Eng
 open MLPE
+variable {val : Node → Option Val}
 
 /-- a retry timer fires: only node tasks sleep -/
-theorem pinv_step_timer {P : Program} {d : DagRef} (hp : PlainP P d) {s : St} (h : PInv P d s) (t : Nat) (out : Out)
-    (hs : step P s (.timer t) = some out) : PInv P d out.1 := by
+theorem pinv_step_timer {P : Program} {d : DagRef} (hp : PlainP P d) {s : St} (h : PInv P d val s) (t : Nat) (out : Out)
+    (hs : step P s (.timer t) = some out) : PInv P d val out.1 := by
   simp only [step] at hs
   cases htk : s.tasks[t]? with
   | none => simp [htk] at hs
@@ -1442,13 +1762,13 @@ theorem pinv_step_timer {P : Program} {d : DagRef} (hp : PlainP P d) {s : St} (h
           obtain ⟨tk0, htk0, hok⟩ := hnodes i hi
           rw [htk0] at htk; cases htk
           cases hok with
-          | sleeping k kw inv dl h1 h2 =>
+          | sleeping k kw inv dl h1 h2 h3 =>
             simp only at hs
             obtain rfl := Option.some.inj hs
-            have x : NodeStepCtx P d s s L i { P := P, t := 2 + i, ord := [], pick := 0 } _ :=
+            have x : NodeStepCtx P d val s s L i { P := P, t := 2 + i, ord := [], pick := 0 } _ :=
               ⟨h, hl, ⟨mtk, hm1, hmok⟩, hnodes, hfresh, hi, rfl, rfl, htk0, ⟨rfl, rfl⟩, rfl, rfl, fun _ _ => rfl, h1,
                h.quiet, h2⟩
-            exact node_step_suspend hp x _ _ _ rfl (by intro e; simp) (fun s'' a b => .slept k kw inv a b)
+            exact node_step_suspend hp x _ _ _ rfl (by intro e; simp) (fun s'' a b => .slept k kw inv a b h3)
           | fresh h1 h2 => simp at hs
           | inBody k kw inv h1 h2 => simp at hs
           | bodyDone k kw inv h1 h2 => simp at hs
@@ -1457,8 +1777,8 @@ theorem pinv_step_timer {P : Program} {d : DagRef} (hp : PlainP P d) {s : St} (h
           | doneExc e h1 => simp at hs
 
 /-- the caller's task is cancelled (at any point) -/
-theorem pinv_step_cancel {P : Program} {d : DagRef} {s : St} (h : PInv P d s) (out : Out)
-    (hs : step P s .cancelCaller = some out) : PInv P d out.1 := by
+theorem pinv_step_cancel {P : Program} {d : DagRef} {s : St} (h : PInv P d val s) (out : Out)
+    (hs : step P s .cancelCaller = some out) : PInv P d val out.1 := by
   simp only [step] at hs
   obtain rfl := Option.some.inj hs
   obtain ⟨ctk, hc0, hcok⟩ := h.caller
@@ -1482,8 +1802,9 @@ def OracleOK (P : Program) (s : St) : Choice → Prop
   | _ => True
 
 /-- **one step preserves the invariant of plain runs, or the caller leaves** -/
-theorem pinv_step {P : Program} {d : DagRef} (hp : PlainP P d) {s : St} (h : PInv P d s) (ch : Choice) (out : Out)
-    (hs : step P s ch = some out) (ho : OracleOK P s ch) : out.1.outcome ≠ none ∨ PInv P d out.1 := by
+theorem pinv_step {P : Program} {d : DagRef} (hp : PlainP P d) {s : St} (h : PInv P d val s) (ch : Choice) (out : Out)
+    (hs : step P s ch = some out) (ho : OracleOK P s ch) (hci : CoreInv s.core) :
+    (∃ o, out.1.outcome = some o ∧ OutcomeOK P d val s o) ∨ PInv P d val out.1 := by
   cases ch with
   | gate n inv att => exact Or.inr (pinv_step_gate h n inv att out hs)
   | timer t => exact Or.inr (pinv_step_timer hp h t out hs)
@@ -1504,13 +1825,13 @@ theorem pinv_step {P : Program} {d : DagRef} (hp : PlainP P d) {s : St} (h : PIn
             (fun d' hd' => ho mtk d' hm1 hd')
         · by_cases hlt : t < s.tasks.length
           · obtain ⟨i, rfl⟩ : ∃ i, t = 2 + i := ⟨t - 2, by omega⟩
-            exact pinv_step_node hp h L hl ⟨mtk, hm1, hmok⟩ hnodes hfresh i (by omega) _ rfl rfl out hs
+            exact pinv_step_node hp h L hl ⟨mtk, hm1, hmok⟩ hnodes hfresh i (by omega) _ rfl rfl out hs hci
           · unfold stepTask at hs
             have : s.tasks[t]? = none := List.getElem?_eq_none (by omega)
             simp [this] at hs
 
-theorem pinv_init {P : Program} {d : DagRef} : PInv P d init := by
-  refine ⟨⟨fun _ => rfl, fun _ => rfl, fun _ => rfl, fun _ => rfl, fun _ => rfl⟩, fun p v hv => by simp [init] at hv,
+theorem pinv_init {P : Program} {d : DagRef} : PInv P d val init := by
+  refine ⟨⟨fun _ => rfl, fun _ => rfl, fun _ => rfl, fun _ => rfl, fun _ => rfl, fun _ => rfl, rfl⟩, fun p v hv => by simp [init] at hv,
     ⟨_, rfl, .start false rfl⟩, Or.inl ⟨rfl, fun _ => ⟨rfl, rfl⟩⟩⟩
 
 /-- executions in which every launch order handed to the model is valid (the lock-step check verifies this of
@@ -1520,20 +1841,22 @@ inductive ReachV (P : Program) : St → Prop
   | step {s s' : St} {c : Choice} {obs : List Obs} :
       ReachV P s → OracleOK P s c → step P s c = some (s', obs) → ReachV P s'
 
-/-- once the caller has left, it stays left -/
-theorem outcome_stable {P : Program} {s s' : St} {c : Choice} {obs : List Obs} (h : step P s c = some (s', obs))
-    (ho : s.outcome ≠ none) : True := trivial
+theorem ReachV.reach {P : Program} {s : St} (h : ReachV P s) : Reach P s := by
+  induction h with
+  | init => exact .init
+  | step _ _ hs ih => exact .step ih hs
 
 /-- **the invariant holds in every reachable state of a plain run in which the caller has not left** — as long as
 no earlier state had an outcome either (the outcome is only ever set once, by the caller's last section) -/
 theorem pinv_reach {P : Program} {d : DagRef} (hp : PlainP P d) {s : St} (h : ReachV P s) :
-    PInv P d s ∨ ∃ s0, ReachV P s0 ∧ s0.outcome ≠ none := by
+    PInv P d val s ∨ ∃ s0, ReachV P s0 ∧ s0.outcome ≠ none := by
   induction h with
   | init => exact Or.inl pinv_init
   | @step s s' c obs hr ho hs ih =>
     rcases ih with ih | ⟨s0, h0, h1⟩
-    · rcases pinv_step hp ih c (s', obs) hs ho with h2 | h2
-      · exact Or.inr ⟨s', .step hr ho hs, h2⟩
+    · rcases pinv_step hp ih c (s', obs) hs ho (coreInv_reach hr.reach) with h2 | h2
+      · obtain ⟨o, ho1, _⟩ := h2
+        exact Or.inr ⟨s', .step hr ho hs, by simp at ho1; simp [ho1]⟩
       · exact Or.inl h2
     · exact Or.inr ⟨s0, h0, h1⟩
 
@@ -1541,6 +1864,7 @@ end MLPE.Eng
 
 namespace MLPE.Eng
 open MLPE
+variable {val : Node → Option Val}
 
 /-- executions of a run that is still pending: every step starts in a state in which the caller has not left -/
 inductive Live (P : Program) : St → Prop
@@ -1548,27 +1872,26 @@ inductive Live (P : Program) : St → Prop
   | step {s s' : St} {c : Choice} {obs : List Obs} :
       Live P s → s.outcome = none → OracleOK P s c → step P s c = some (s', obs) → Live P s'
 
+theorem Live.reach {P : Program} {s : St} (h : Live P s) : Reach P s := by
+  induction h with
+  | init => exact .init
+  | step _ _ _ hs ih => exact .step ih hs
+
 theorem pinv_live {P : Program} {d : DagRef} (hp : PlainP P d) {s : St} (h : Live P s) (ho : s.outcome = none) :
-    PInv P d s := by
+    PInv P d val s := by
   induction h with
   | init => exact pinv_init
   | @step s s' c obs hr hso hor hs ih =>
-    rcases pinv_step hp (ih hso) c (s', obs) hs hor with h2 | h2
-    · exact absurd ho h2
+    rcases pinv_step hp (ih hso) c (s', obs) hs hor (coreInv_reach hr.reach) with h2 | h2
+    · obtain ⟨o, ho1, _⟩ := h2
+      rw [ho1] at ho; cases ho
     · exact h2
 
 end MLPE.Eng
 
 namespace MLPE.Eng
 open MLPE
-
-/-- the decidable part of `PlainP`: evaluated by the driver on the generated programs, and by `decide` below -/
-def plainCheck (P : Program) (d : DagRef) : Bool :=
-  decide (reducedRef P init P.g.input P.g.output false false false = some d) &&
-  decide (d.dest = some P.g.output) && !d.isRec && !d.isOneof &&
-  d.nodes.all (fun n => (P.g.preds n).all (fun p => decide (p ∈ d.nodes))) &&
-  decide (P.g.output ∈ d.nodes) && decide d.nodes.Nodup && !P.g.nodes.isEmpty &&
-  P.g.edges.all (fun e => e.case.isNone) && P.poolsOk
+variable {val : Node → Option Val}
 
 theorem reducedRef_congr_opened (P : Program) (s : St) (h : ∀ n, s.opened n = false) (a b : Node) (x y z : Bool) :
     reducedRef P s a b x y z = reducedRef P init a b x y z := by
